@@ -26,11 +26,14 @@ SCOPES = {"quick": [dict(N=2, MaxC=3), dict(N=3, MaxC=1)],
           "thorough": [dict(N=2, MaxC=4), dict(N=3, MaxC=2)]}
 
 
-def make(container, C):
+DTYPES = ["int64", "float64", "float32", "int32"]
+
+
+def make(container, C, dtype="int64"):
     import scipy.sparse as sp
     if container == "ndarray":
-        return np.array(C)
-    return getattr(sp, container + "_matrix")(np.array(C))
+        return np.array(C, dtype=dtype)
+    return getattr(sp, container + "_matrix")(np.array(C, dtype=dtype))
 
 
 def dense(x):
@@ -54,11 +57,20 @@ def replay_case(arg):
     check_pi = pi is not None and (c["builder"] == "transpose" or c["sc"])
     prior = None if c["prior"] == 0 else c["prior"]
     fn = getattr(builders, c["builder"])
-    for cont in containers:
-        for flag in (True, False):
-            M = make(cont, c["C"])
+    # element type of the caller's matrix: every type for the two containers whose conversions can hand back the
+    # caller's own object (ndarray, csr), the default plus one rotating type elsewhere
+    combos = []
+    for ci, cont in enumerate(containers):
+        dts = DTYPES if cont in ("ndarray", "csr") else ["int64", DTYPES[1 + (ci + len(c["C"]) + c["prior"]) % 3]]
+        for di, dt in enumerate(dts):
+            for flag in ((True, False) if dt == "int64" else ((di + ci) % 2 == 0,)):
+                combos.append((cont, dt, flag))
+    for cont, dt, flag in combos:
+        if True:
+            M = make(cont, c["C"], dt)
             before = dense(M).copy()
             btype = type(M)
+            rtol = 1e-12 if dt != "float32" else 3e-6
             try:
                 with warnings.catch_warnings():
                     warnings.simplefilter("ignore")
@@ -68,9 +80,9 @@ def replay_case(arg):
                                                 type(ex).__name__),
                             {"container": cont, "flag": flag, "error": "%s: %s" % (type(ex).__name__, ex)}))
                 continue
-            where = {"container": cont, "calculate_eq_probs": flag}
+            where = {"container": cont, "dtype": dt, "calculate_eq_probs": flag}
             # caller's matrix
-            if type(M) is not btype or not np.array_equal(dense(M), before):
+            if type(M) is not btype or M.dtype != np.dtype(dt) or not np.array_equal(dense(M), before):
                 bad.append((c["builder"] + "/caller-modified", dict(where, now=dense(M).tolist())))
             # containers
             allowed = {btype} if prior is None or cont == "ndarray" else {btype, np.ndarray}
@@ -78,9 +90,9 @@ def replay_case(arg):
                 bad.append((c["builder"] + "/container", dict(where, got=[type(Cout).__name__, type(Tout).__name__],
                                                               allowed=[t.__name__ for t in allowed])))
             # values
-            if dense(Cout).shape != (n, n) or not np.allclose(dense(Cout), W, rtol=1e-12, atol=0):
+            if dense(Cout).shape != (n, n) or not np.allclose(dense(Cout), W, rtol=rtol, atol=0):
                 bad.append((c["builder"] + "/counts", dict(where, got=dense(Cout).tolist(), expected=W.tolist())))
-            if dense(Tout).shape != (n, n) or not np.allclose(dense(Tout), T, rtol=1e-12, atol=1e-15):
+            if dense(Tout).shape != (n, n) or not np.allclose(dense(Tout), T, rtol=rtol, atol=1e-15):
                 bad.append((c["builder"] + "/tprobs", dict(where, got=dense(Tout).tolist(), expected=T.tolist())))
             if not flag:
                 if eq is not None:
@@ -89,7 +101,7 @@ def replay_case(arg):
                 e = np.asarray(eq)
                 if e.shape != (n,):
                     bad.append((c["builder"] + "/eq-shape", dict(where, got=str(e.shape))))
-                elif check_pi and not np.allclose(e, pi, rtol=1e-9, atol=1e-12):
+                elif check_pi and not np.allclose(e, pi, rtol=max(1e-9, rtol * 10), atol=1e-12):
                     bad.append((c["builder"] + "/eq-probs", dict(where, got=e.tolist(), expected=pi.tolist())))
     return bad
 
